@@ -281,7 +281,8 @@ Definition read_chunks (k : Z) (body : list Z) : option (list buf) :=
   read_chunks_fuel (S (S (length body))) k body [].
 
 (* --- writing: header bytes replayed, then the buffer's bytes; a selection data[idx] is made contiguous
-       by concatenating the selected records' byte ranges (_make_contigous) --- *)
+       by concatenating the selected records' byte ranges (the bytes `_make_contigous` returns; since /repo 0f67f4c
+       the selected object itself is NOT re-based: it keeps the parent's data and the selected starts/ends) --- *)
 Definition rec_bytes (b : buf) (i : Z) : option (list Z) :=
   match py_index (bf_starts b) i, py_index (bf_ends b) i with
   | Some s, Some e => Some (slice s e (bf_data b))
@@ -293,5 +294,9 @@ Definition write_selected (hdr : list Z) (b : buf) (idx : list Z) : option (list
   | Some parts => Some (hdr ++ concat parts)
   | None => None
   end.
+(* the fields of a selected object u = data[idx], read at any time (before or after u was written): the parent's
+   bytes decoded at the selected record starts *)
+Definition decode_selected (v : variant) (names : list (list Z)) (b : buf) (idx : list Z) : option (list orec) :=
+  all_some (map (fun i => option_map (decode_at v names (bf_data b)) (py_index (bf_starts b) i)) idx).
 Definition eof_marker : list Z :=
   [31; 139; 8; 4; 0; 0; 0; 0; 0; 255; 6; 0; 66; 67; 2; 0; 27; 0; 3; 0; 0; 0; 0; 0; 0; 0; 0; 0].
